@@ -5,6 +5,7 @@ package main
 
 import (
 	"fmt"
+	"go/constant"
 	"go/token"
 	"go/types"
 	"strings"
@@ -489,4 +490,57 @@ func printerRules(w *World, r *Report, rule string) {
 		}
 	}
 	r.floor(rule, "uses of map keys and set members in the printer", n, 2)
+}
+
+// readerLimitRule: the reader refuses a text for what it says, never for how much of it there is: no branch of
+// the reading code compares a count (a depth, a number of lines, tokens or forms) with a fixed limit.  Values of
+// any size must read back (C06), placeholder tables of any size must be transported (C15).
+func readerLimitRule(w *World, r *Report, rule string) {
+	r.rule(rule, "no branch of the reading code (package reader, READ, READWithPreamble) compares an integer count with a constant limit: whether a text is read does not depend on how many collections, lines or tokens it has (a counter that is decremented wrongly - through a value receiver, a defer that captured the incremented value - then turns a nesting limit into a size limit)")
+	var fns []*ssa.Function
+	fns = append(fns, w.pkgFuncs("reader")...)
+	for _, name := range []string{"READ", "READWithPreamble"} {
+		if f := w.Fn("", name); f != nil {
+			fns = append(fns, w.withPkgHelpers(f)...)
+		}
+	}
+	seen := map[*ssa.Function]bool{}
+	n := 0
+	for _, root := range fns {
+		for _, f := range append([]*ssa.Function{root}, allAnon(root)...) {
+			if seen[f] || isTestFunc(w, f) {
+				continue
+			}
+			seen[f] = true
+			for _, b := range f.Blocks {
+				for _, in := range b.Instrs {
+					bo, ok := in.(*ssa.BinOp)
+					if !ok {
+						continue
+					}
+					switch bo.Op {
+					case token.LSS, token.LEQ, token.GTR, token.GEQ:
+					default:
+						continue
+					}
+					n++
+					for _, side := range [][2]ssa.Value{{bo.X, bo.Y}, {bo.Y, bo.X}} {
+						k, ok := side[1].(*ssa.Const)
+						if !ok || k.Value == nil || k.Value.Kind() != constant.Int {
+							continue
+						}
+						bt, ok := side[0].Type().Underlying().(*types.Basic)
+						if !ok || bt.Kind() != types.Int {
+							continue // runes, bytes, durations: not counts
+						}
+						if v := k.Int64(); v > 8 || v < -8 {
+							r.bad(rule, f, "count compared with a fixed limit", bo.Pos(), fmt.Sprintf("%s is compared with the constant %d: a text is treated differently once a count passes a fixed limit, so sufficiently large values (or preambles) are refused or cut short although they are well-formed", describeVal(nil, side[0], 0), v))
+						}
+					}
+				}
+			}
+		}
+	}
+	r.add(rule, nil, "order comparisons in the reading code", token.NoPos, "ok", fmt.Sprintf("%d comparisons examined", n))
+	r.floor(rule, "order comparisons in the reading code", n, 3)
 }
